@@ -39,6 +39,9 @@ type Case struct {
 	Early []EarlyQ `json:"early,omitempty"`
 	// Bisector: the two query points are 2e-10 relative apart, on either side of the bisector of a link
 	Bisector bool `json:"bisector,omitempty"`
+	// Offset: the whole network and the query points were moved away from the origin by this much (per axis, in the
+	// direction of the quadrant); documentation of the generator's choice, the coordinates above include it
+	Offset float64 `json:"offset,omitempty"`
 }
 
 type EarlyQ struct {
@@ -135,6 +138,25 @@ func gen(t *rapid.T) Case {
 		ne := rapid.IntRange(1, 3).Draw(t, "nearly")
 		for i := 0; i < ne; i++ {
 			c.Early = append(c.Early, EarlyQ{After: rapid.IntRange(1, len(c.Links)-1).Draw(t, "after"), From: q("efrom"), To: q("eto")})
+		}
+	}
+	if !jitter && !c.Bisector && rapid.IntRange(0, 4).Draw(t, "faraway") == 2 {
+		// the same network far from the origin: coordinates of 1e5 to 1e8 with links of length 2 to 30 (map coordinates in
+		// metres are like that). Only with bit-identical link ends: the library's relative tolerance for "the same point"
+		// is an absolute 0.1 out there.
+		c.Offset = rapid.SampledFrom([]float64{1e5, 1e6, 1e7, 3e7, 1e8}).Draw(t, "offset")
+		mv := func(p vkit.P2) vkit.P2 { return vkit.MkP(float64(p[0])+sx*c.Offset, float64(p[1])+sy*c.Offset) }
+		for i := range c.Nodes {
+			c.Nodes[i] = mv(c.Nodes[i])
+		}
+		for i := range c.Links {
+			for j := range c.Links[i].Mid {
+				c.Links[i].Mid[j] = mv(c.Links[i].Mid[j])
+			}
+		}
+		c.From, c.To = mv(c.From), mv(c.To)
+		for i := range c.Early {
+			c.Early[i].From, c.Early[i].To = mv(c.Early[i].From), mv(c.Early[i].To)
 		}
 	}
 	return c
@@ -332,6 +354,9 @@ func run(c Case) (v vkit.Verdict) {
 		cost = sumT
 	}
 	v.Class(fmt.Sprintf("time_%v", c.Time))
+	if c.Offset != 0 {
+		v.Class(fmt.Sprintf("network_%g_from_the_origin", c.Offset))
+	}
 	// some start candidate must make the chain a walk to an end candidate with optimal cost
 	var why string
 	okAny := false
